@@ -24,6 +24,10 @@ Definition render_piece (E : escfg) (e : env) (name value : str) (p : piece) : s
 Definition render (E : escfg) (e : env) (name value : str) (t : list piece) : str :=
   flat_map (render_piece E e name value) t.
 
+(** Does the root test of the source succeed on a node named [n]?  ([n] is a string: never [None].) *)
+Definition root_like (rt : roottest) (n : str) : bool :=
+  match rt, n with RTFalsy, [] => true | _, _ => false end.
+
 Section Ser.
   Variable C : sercfg.
   Variable E : escfg.
@@ -38,11 +42,15 @@ Section Ser.
   Definition mkenv (cur : str) : env :=
     {| v_cur := cur; v_indent := o_indent o; v_open := open_brace; v_close := close_brace |}.
 
-  (** [_serialise] on a named node with the given cur_indent. *)
+  (** [_serialise] on a named node with the given cur_indent.  A block on which the root test of the source
+      succeeds is written like the root: children only. *)
   Fixpoint ser_node (cur : str) (k : kv) : str :=
     match k with
     | Leaf n v => render E (mkenv cur) n v (t_leaf C)
     | Block n cs =>
+        if root_like (t_root_test C) n
+        then flat_map (ser_node (render E (mkenv cur) [] [] (t_root_indent C))) cs
+        else
         render E (mkenv cur) n [] (t_head C)
         ++ flat_map (ser_node (render E (mkenv cur) n [] (t_child_indent C))) cs
         ++ render E (mkenv cur) n [] (t_tail C)
